@@ -60,6 +60,16 @@ impl Rng {
     pub fn bytes(&mut self, n: usize) -> Vec<u8> {
         (0..n).map(|_| self.next() as u8).collect()
     }
+    /// gas limit of a sub-message: mostly none, the boundary values, or anything in between
+    pub fn gas_limit(&mut self) -> Option<u64> {
+        match self.below(10) {
+            0..=3 => None,
+            4 => Some(0),
+            5 => Some(1),
+            6 => Some(u64::MAX),
+            _ => Some(self.below(1_000_000)),
+        }
+    }
     pub fn word(&mut self) -> String {
         const W: [&str; 20] = [
             "ab", "cd", "xyz", "q", "lorem", "ipsum", "7up", "Zed", "a b", "é", "", "under_score",
